@@ -152,9 +152,15 @@ func init() {
 }
 
 func TestC13_Deletion(t *testing.T) {
+	if _, err := c13Server("deletion"); err != nil {
+		t.Fatalf("harness: %v", err)
+	}
 	RunRapid(t, Check[c13Case]{Prop: "C13", Test: "TestC13_Deletion", Gen: genC13("deletion"), Run: runC13})
 }
 
 func TestC13_Insertion(t *testing.T) {
+	if _, err := c13Server("insertion"); err != nil {
+		t.Fatalf("harness: %v", err)
+	}
 	RunRapid(t, Check[c13Case]{Prop: "C13", Test: "TestC13_Insertion", Gen: genC13("insertion"), Run: runC13})
 }
